@@ -246,13 +246,19 @@ class Unary(Contract):
 
 
 class Construct(Contract):
+    """Food(...) with every combination of labels that do / do not already say ' each month', with the fat and
+    protein series given or left to their defaults."""
     prop = "C11"
     file = FOOD
     func = "Food"
 
-    def __init__(self, base, series, labelled_each):
-        self.base, self.series, self.labelled_each = base, series, labelled_each
-        self.name = f"Food({base}{'[]' if series else ''}{', labels already each month' if labelled_each else ''})"
+    def __init__(self, base, series, labelled_each, only_kcals=False):
+        if isinstance(labelled_each, bool):
+            labelled_each = (labelled_each,) * 3
+        self.base, self.series, self.labelled_each, self.only_kcals = base, series, tuple(labelled_each), only_kcals
+        mask = "".join("m" if x else "-" for x in self.labelled_each)
+        self.name = (f"Food({base}{'[]' if series else ''}" + (f", labels already each month:{mask}" if any(self.labelled_each) else "")
+                     + (", fat and protein left to default" if only_kcals else "") + ")")
 
     def inputs(self, S):
         conv(S)
@@ -261,7 +267,11 @@ class Construct(Contract):
             vals = [S.series(n, N3) for n in ("k", "f", "p")]
         else:
             vals = [S.real(n) for n in ("k", "f", "p")]
-        lab = tuple(l + (EACH if self.labelled_each else "") for l in labels)
+        lab = tuple(l + (EACH if m else "") for l, m in zip(labels, self.labelled_each))
+        if self.only_kcals:
+            zeros = V(Arr(N3, elems=[Fraction(0)] * N3, dtype="float")) if self.series else V(0)
+            return dict(args=[vals[0]], kwargs=dict(kcals_units=lab[0], fat_units=lab[1], protein_units=lab[2]),
+                        vals=[vals[0], zeros, zeros], lab=lab)
         return dict(args=[vals[0], vals[1], vals[2], *lab], vals=vals, lab=lab)
 
     def ensures(self, S, p, res):
@@ -347,7 +357,13 @@ def _mk():
     for b in ("plain", "custom"):
         for s in (False, True):
             cs.append(Construct(b, s, False))
-    cs.append(Construct("plain", True, True))
+    import itertools
+    for mask in itertools.product((False, True), repeat=3):
+        if any(mask):
+            cs.append(Construct("plain", True, mask))
+    for mask in ((False, False, False), (True, True, True), (True, False, False), (False, True, True)):
+        cs.append(Construct("plain", True, mask, only_kcals=True))
+    cs.append(Construct("plain", False, False, only_kcals=True))
     for op in ("__add__", "__sub__"):
         for s in (False, True):
             cs.append(BinOp(op, "plain", s, "plain", s, "a"))
